@@ -339,7 +339,8 @@ pub fn run_spec(spec: &MtSpec, record_events: bool) -> MtOut {
         }
         // C13: reference count equals the number of live arena values
         let live_values: usize = ends.iter().map(|e| e.arenas.iter().flatten().count() + e.handles.iter().filter(|h| h.owned).count()).sum::<usize>() + ctl.iter().count() + st.mailbox.iter().map(|m| m.len()).sum::<usize>();
-        let zero_owned: usize = ends.iter().map(|e| e.handles.iter().filter(|h| h.owned && h.h.0.meta().3 == 0 && h.drop_id.is_none()).count()).sum();
+        let zero_owned: usize = ends.iter().map(|e| e.handles.iter().filter(|h| h.owned && h.h.0.meta().3 == 0 && h.drop_id.is_none()).count()).sum::<usize>()
+            + st.mailbox.iter().map(|m| m.iter().filter(|(h, _, _)| h.0.meta().3 == 0).count()).sum::<usize>();
         if live_values > 0 && !st.torn_down {
             // refs() can only be observed through an arena value (owned handles do not expose it)
             if let Some(any) = ctl.as_deref().or_else(|| ends.iter().flat_map(|e| e.arenas.iter().flatten()).next().map(|b| &**b)) {
